@@ -26,7 +26,7 @@ Definition new_class (r : res cfg) : N := match r with Ok _ => 0 | Err => 1 | Pa
 
 (** bits: 0 model = code; 1 oracle (documents) = code; 2 the documents decide this
     configuration; 3 accepted parameters = documented parameters; known classes:
-    4 bounds, 5 short root, 6 0007 defaults, 7 array form; 8 configuration strings well-formed *)
+    4 0007 defaults, 5 array form; 6 configuration strings well-formed *)
 Definition new_mask (dbg : bool) (e : ext) (r : raw) (obs : N) : N :=
   let m := new dbg e r in
   let sp := LayoutSpec.parse e r in
@@ -34,12 +34,10 @@ Definition new_mask (dbg : bool) (e : ext) (r : raw) (obs : N) : N :=
   bit 1 (match sp with Some _ => obs =? 0 | None => obs =? 1 end) +
   bit 2 (cfg_determined e r) +
   bit 3 (match m, sp with Ok c, Some sc => same_params c sc | _, _ => true end) +
-  bit 4 (c11_cfg_bounds e r) + bit 5 (c11_cfg_short_root e r) +
-  bit 6 (c11_cfg_0007_defaults e r) + bit 7 (c11_cfg_array r) + bit 8 (raw_wf r).
+  bit 4 (c11_cfg_0007_defaults e r) + bit 5 (c11_cfg_array r) + bit 6 (raw_wf r).
 
 (** bits: 0 model = code; 1 oracle = code (vacuous when the documents forbid the
-    configuration); 2 inputs well-formed; known classes: 3 zero tuples (0003),
-    4 case folding index, 5 control characters (0007) *)
+    configuration); 2 inputs well-formed; known class: 3 case folding index *)
 Definition path_mask (c : cfg) (sp : option cfg) (id : ustr) (dg : bytes) (obs : res bytes) : N :=
   bit 0 (res_bytes_eqb (Layout.map c id dg) obs) +
   bit 1 (match sp with
@@ -47,7 +45,7 @@ Definition path_mask (c : cfg) (sp : option cfg) (id : ustr) (dg : bytes) (obs :
          | None => true
          end) +
   bit 2 (inputs_ok c id dg) +
-  bit 3 (c11_0003_zero_tuples c) + bit 4 (c11_casefold c id) + bit 5 (c11_0007_ctrl c id).
+  bit 3 (c11_casefold c id).
 
 Definition check_layout (dbg : bool) (e : ext) (r : raw) (obs_new : N)
            (ids : list (ustr * bytes * res bytes)) : list N :=
